@@ -905,8 +905,9 @@ func (l *lexer) print(w ast.Word) string {
 func (l *lexer) scanToken() int {
 	var blank bool
 	// every alias that ends here: the innermost one may itself be the last
-	// word of an alias whose value ends in a <blank>
-	for i := len(l.aliases) - 1; i >= 0 && l.aliases[i].value.Len() == 0; i-- {
+	// word of an alias whose value ends in a <blank>; after an operator such
+	// as ")" only the <blank> that terminates the value is left unread
+	for i := len(l.aliases) - 1; i >= 0 && l.aliases[i].value.Len() <= 1; i-- {
 		if l.aliases[i].blank {
 			blank = true
 		}
